@@ -54,6 +54,18 @@ def _hash_tree():
     return h
 
 
+def _prune(pattern, keep):
+    """Remove stale build directories: not the current one, not used for two hours (another check may be running from it), keep the newest three."""
+    old = sorted([d for d in glob.glob(pattern) if d != keep], key=os.path.getmtime)
+    now = time.time()
+    for d in old[:-3]:
+        if now - os.path.getmtime(d) > 7200:
+            shutil.rmtree(d, ignore_errors=True)
+    for d in old[-3:]:
+        if now - os.path.getmtime(d) > 86400:
+            shutil.rmtree(d, ignore_errors=True)
+
+
 def sim_sources():
     src = sorted(glob.glob(os.path.join(ROOT, 'sim', '*.cpp')) + glob.glob(os.path.join(ROOT, 'sim', 'tus', '*.cpp')))
     return [s for s in src if not os.path.basename(s).startswith('x_')]
@@ -100,9 +112,7 @@ def build(variant='plain', quiet=False):
         if not quiet:
             log('[build] %s: done in %.0fs -> %s' % (variant, time.time() - t0, out))
         # prune stale build dirs of this variant
-        old = sorted([d for d in glob.glob(os.path.join(BUILD, variant + '-*')) if d != out], key=os.path.getmtime)
-        for d in old[:-1]:
-            shutil.rmtree(d, ignore_errors=True)
+        _prune(os.path.join(BUILD, variant + '-*'), out)
         return binary
     finally:
         fcntl.flock(lock, fcntl.LOCK_UN)
@@ -130,9 +140,7 @@ def build_aux(name, sources, cxx, flags, ld=(), quiet=True):
             shutil.rmtree(out, ignore_errors=True)
             raise BuildFailure('compilation of %s failed:\n%s\n%s' % (name, ' '.join(cmd), r.stdout[-3000:]), cmd)
         open(os.path.join(out, '.ok'), 'w').write(key)
-        old = sorted([d for d in glob.glob(os.path.join(BUILD, 'aux-%s-*' % name)) if d != out], key=os.path.getmtime)
-        for d in old[:-1]:
-            shutil.rmtree(d, ignore_errors=True)
+        _prune(os.path.join(BUILD, 'aux-%s-*' % name), out)
         return binary
     finally:
         fcntl.flock(lock, fcntl.LOCK_UN)
@@ -562,6 +570,8 @@ def run_sim_check(prop, tier, seed, seconds_override=None):
     spec = CHECKS[prop]
     t0 = time.time()
     phases = [spec['quick']] if tier == 'quick' else spec['thorough']
+    if tier == 'quick' and os.environ.get('VERIF_QUICK_VARIANT'):
+        phases = [(os.environ['VERIF_QUICK_VARIANT'], phases[0][1])]
     if seconds_override:
         phases = [(v, seconds_override) for (v, _) in phases]
     binaries = {}
